@@ -6,3 +6,5 @@ LEVEL = "proof"
 LEVEL_TEXT = 'Deductive: each Type.validate returns a value of the declared type or raises (Int/Str/Float/Bool/Path/Any/Enum/Object, List and Dict by induction through hastype); documented coercions only; ConfigInformation.set stores validate(v) and refuses None for required arguments; validate() reaches every contained configuration (lists, sets, dicts) and raises for a missing required non-generated argument.'
 TRUSTED = ["UnionType and the legacy {'$type': 'path'} form are outside the constructor list", 'validate-before-registration ordering in submit() is not mechanised', 'z3 5.1 / cvc5 1.0.3 / z3 4.8.12 and the VC generator pyvc (validated by seeded changes, pre-fix replays and the CPython replay of counterexamples; not verified)', 'Python semantics of DESIGN 2.3 (mathematical ints and reals, left-to-right evaluation, no monkey-patching, assert not compiled out)', 'heap typing: declared field/parameter classes are assumed on reads and checked on writes in the functions under contract', "contracts of externals and of callees outside the list are assumed; every ('ASSUME', ...) clause is listed in DESIGN section 11"]
 LEVEL_NOTE = "UnionType and the legacy {'$type': 'path'} form are outside the constructor list; validate-before-registration ordering in submit() is not mechanised"
+from bounded.findings import run_c15_stale_validated
+BOUNDED = [("validated flag survives a rejected submission", run_c15_stale_validated)]
